@@ -128,9 +128,17 @@ class ContainersMixin:
             idx = D()
             self.vec_bounds(rv, idx)
             x = self.vec_get(rv, idx, check=False)
-            seq = self.vec_seq(rv)
-            keep = [(band(p, bnot(ip.eq(I(j), idx))), it) for j, (p, it) in enumerate(seq)]
-            ip.write(place, self.vec_from_seq(keep, rv.kind))  # order differs from std (last moved into hole): callers treat as a set
+            last = self.vec_get(rv, I(zi(I(rv.n)) - 1 if not isinstance(rv.n, int) else rv.n - 1, "usize"), check=False)
+            items = []
+            for j, it in enumerate(rv.items):
+                if it is None:
+                    items.append(None)
+                    continue
+                items.append(ite(ip.eq(I(j), idx), last, it))
+            if isinstance(rv.n, int):
+                ip.write(place, Vc(items[: rv.n - 1], None, rv.kind))
+            else:
+                ip.write(place, Vc(items, rv.n - 1, rv.kind))
             return x
         if name == "insert":
             idx, x = [ip.deref(v) for v in A()]
